@@ -4,8 +4,13 @@
 // subsampling steps, channel index.
 #include "views.hpp"
 #include <boost/gil/extension/dynamic_image/dynamic_image_all.hpp>
+#include <boost/gil/extension/dynamic_image/dynamic_at_c.hpp>
 #include <typeinfo>
 #include <cstring>
+#ifdef C14_WITH_RESAMPLE
+#include <boost/gil/extension/numeric/sampler.hpp>
+#include <boost/gil/extension/numeric/resample.hpp>
+#endif
 namespace gil = boost::gil;
 namespace v2 = boost::variant2;
 using any_view_t = gil::any_image_view<gil::gray8_view_t, gil::rgb8_view_t, gil::rgb8_planar_view_t>;
@@ -28,6 +33,10 @@ template <class S> static typename S::view_t make_filled(S& s, int w, int h) {
 }
 
 // ---------------------------------------------------------------------------------------------- observers
+struct same_type_and_dims {
+    template <class V> bool operator()(V const& a, V const& b) const { return a.dimensions() == b.dimensions(); }
+    template <class V, class U> bool operator()(V const&, U const&) const { return false; }
+};
 extern "C" void h_observers(void) {
     int W = vp_param(0), H = vp_param(1);
     SRC_A s; view_a_t cv = make_filled(s, W, H);
@@ -38,6 +47,12 @@ extern "C" void h_observers(void) {
     vp_assert(av.num_channels() == (std::size_t)gil::num_channels<view_a_t>::value, "obs.view_num_channels");
     vp_assert(av.size() == cv.size() && av.size() == (std::size_t)(W * H), "obs.view_size");
     vp_assert(v2::get<C14_ALT>(av) == cv, "obs.view_get_is_the_held_view");
+    // deprecated spelling of variant2::visit
+    vp_assert(gil::apply_operation(av, gil::detail::any_type_get_dimensions()) == cv.dimensions(), "obs.apply_operation_is_visit");
+    vp_assert(gil::apply_operation(av, av, same_type_and_dims()), "obs.apply_operation_binary_is_visit");
+    // dynamic_at_c: run-time index into a compile-time integer list
+    int idx = vp_range(0, 2);
+    vp_assert((gil::at_c<boost::mp11::mp_list_c<int, 7, 11, 13>, int>((std::size_t)idx)) == (idx == 0 ? 7 : idx == 1 ? 11 : 13), "obs.dynamic_at_c_returns_nth_value");
     any_view_t::const_t cav(typename view_a_t::const_t{cv});
     vp_assert(cav.index() == C14_ALT && cav.dimensions() == cv.dimensions() && cav.size() == cv.size(), "obs.const_view_observers");
 }
@@ -67,6 +82,10 @@ struct first_cc {
 #ifndef C14_CCDST
 #define C14_CCDST gil::rgb8_pixel_t
 #endif
+template <class T> struct held_as {   // pointer to the held object if it has type T
+    T const* operator()(T const& g) const { return &g; }
+    template <class O> T const* operator()(O const&) const { return nullptr; }
+};
 extern "C" void h_xf(void) {
     int W = vp_param(0), H = vp_param(1);
     SRC_A s; view_a_t cv = make_filled(s, W, H);
@@ -110,8 +129,12 @@ extern "C" void h_xf(void) {
 #endif
     using res_t = decltype(r); using exp_t = decltype(e);
     static_assert(std::is_same<exp_t, boost::mp11::mp_at_c<res_t, C14_ALT>>::value, "result alternative has the type of the concrete transformation's result");
-    vp_assert(r.index() == C14_ALT, "xf.result_holds_corresponding_alternative");
-    exp_t const& g = v2::get<C14_ALT>(r);
+    // the held object has the type of the concrete result; where that type occurs once in the result list (every transformation
+    // except nth_channel, whose result list maps gray8 and planar rgb8 to the same view type) it sits at the corresponding index
+    exp_t const* gp = v2::visit(held_as<exp_t>(), r);
+    vp_assert(gp != nullptr && (boost::mp11::mp_count<res_t, exp_t>::value != 1 || r.index() == C14_ALT), "xf.result_holds_corresponding_alternative");
+    if (gp == nullptr) return;
+    exp_t const& g = *gp;
     vp_assert(g == e, "xf.result_view_equals_concrete_result");
     vp_assert(r.dimensions() == e.dimensions(), "xf.result_dimensions");
     vp_assert(r.size() == e.size(), "xf.result_size");
@@ -139,6 +162,7 @@ extern "C" void h_xf(void) {
 #define ALG_EQUAL 4
 #define ALG_FILL 5
 #define ALG_FOREACH 6
+#define ALG_RESAMPLE 7   /* nearest neighbour, integer translation (vp_param 2,3): concrete matrix, symbolic contents */
 #ifndef C14_ALTB
 #define C14_ALTB C14_ALT
 #endif
@@ -172,6 +196,8 @@ template <class SV, class DV> static void run_alg(SV const& s, DV const& d) {
     gil::copy_and_convert_pixels(s, d);
 #elif C14_ALG == ALG_CONVERT_CC
     gil::copy_and_convert_pixels(s, d, first_cc());
+#elif C14_ALG == ALG_RESAMPLE
+    gil::resample_pixels(s, d, gil::matrix3x2<double>::get_translate((double)vp_param(2), (double)vp_param(3)), gil::nearest_neighbor_sampler());
 #endif
 }
 // concrete operations, instantiated only for the pairs for which they compile
@@ -184,11 +210,11 @@ extern "C" void h_alg2(void) {
     SRC_A s; view_a_t sv = make_filled(s, W, H);
     dst_state D; D.init(W, H); view_b_t dv = D.dv;
     int k = vp_range(0, SRC_B::nplanes - 1);
-    unsigned long i = vp_nondet_u64(); vp_assume(i < D.n);
+    unsigned long i = vp_nondet_u64(); vp_assume(i < D.n || (D.n == 0 && i == 0));   // empty buffer (a dimension is 0 and no padding): nothing to probe
     // ---- expected: the concrete operation (copy_and_convert never throws: incompatible pairs are colour-converted)
-    constexpr bool ok = pair_compatible || C14_ALG != ALG_COPY;
+    constexpr bool ok = pair_compatible || (C14_ALG != ALG_COPY && C14_ALG != ALG_RESAMPLE);
     conc_alg(sv, dv, std::integral_constant<bool, ok>());
-    unsigned char expected = D.d.plane(k)[i];
+    unsigned char expected = D.n ? D.d.plane(k)[i] : 0;
     D.restore();
     // ---- the run-time typed operation
     any_view_t as(sv); any_view_t ad(dv);
@@ -203,7 +229,7 @@ extern "C" void h_alg2(void) {
 #endif
     } catch (std::bad_cast const&) { threw = true; }
     vp_assert(threw == !ok, "alg.bad_cast_iff_incompatible");
-    vp_assert(D.d.plane(k)[i] == expected, "alg.destination_equals_concrete_result_or_unchanged");
+    vp_assert((D.n ? D.d.plane(k)[i] : 0) == expected, "alg.destination_equals_concrete_result_or_unchanged");
 #if C14_ALG == ALG_COPY
     if (ok && W > 0 && H > 0) { int x = vp_range(0, 3); int y = vp_range(0, 3); vp_assume(x < W && y < H);
         vp_assert(px_eq(sv, dv, x, y, std::integral_constant<bool, pair_compatible>()), "alg.copied_pixel_equals_source"); }
@@ -251,25 +277,25 @@ extern "C" void h_alg1(void) {
     int W = vp_param(0), H = vp_param(1);
     dst_state D; D.init(W, H); view_b_t dv = D.dv;
     int k = vp_range(0, SRC_B::nplanes - 1);
-    unsigned long i = vp_nondet_u64(); vp_assume(i < D.n);
+    unsigned long i = vp_nondet_u64(); vp_assume(i < D.n || (D.n == 0 && i == 0));   // empty buffer (a dimension is 0 and no padding): nothing to probe
     any_view_t ad(dv);
     bool threw = false;
 #if C14_ALG == ALG_FILL
     C14_VAL val; vp_fill(&val, sizeof val);
     constexpr bool ok = (gil::num_channels<C14_VAL>::value == gil::num_channels<view_b_t>::value);   // gray value <-> gray view, rgb/bgr value <-> rgb views
     conc_fill(dv, val, std::integral_constant<bool, ok>());
-    unsigned char expected = D.d.plane(k)[i];
+    unsigned char expected = D.n ? D.d.plane(k)[i] : 0;
     D.restore();
     try { gil::fill_pixels(ad, val); } catch (std::bad_cast const&) { threw = true; }
 #else
     constexpr bool ok = true;
     stamp e = gil::for_each_pixel(dv, stamp());
-    unsigned char expected = D.d.plane(k)[i];
+    unsigned char expected = D.n ? D.d.plane(k)[i] : 0;
     D.restore();
     stamp g;
     try { g = gil::for_each_pixel(ad, stamp()); } catch (std::bad_cast const&) { threw = true; }
     vp_assert(g.n == e.n && g.n == W * H, "alg.for_each_functor_called_once_per_pixel_and_returned");
 #endif
     vp_assert(threw == !ok, "alg.bad_cast_iff_incompatible");
-    vp_assert(D.d.plane(k)[i] == expected, "alg.destination_equals_concrete_result_or_unchanged");
+    vp_assert((D.n ? D.d.plane(k)[i] : 0) == expected, "alg.destination_equals_concrete_result_or_unchanged");
 }
